@@ -36,7 +36,7 @@ OPS = {"add": operator.add, "subtract": operator.sub, "multiply": operator.mul, 
        "greater_equal": operator.ge, "bitwise_and": operator.and_, "bitwise_or": operator.or_, "bitwise_xor": operator.xor,
        "left_shift": operator.lshift, "right_shift": operator.rshift,
        "negative": operator.neg, "positive": operator.pos, "absolute": abs, "invert": operator.invert}
-KINDS = ["unary", "ra", "npscalar", "pyscalar", "0d", "col", "collist", "bad_total", "bad_same_total", "bad_rows", "bad_onerow"]
+KINDS = ["unary", "ra", "npscalar", "pyscalar", "0d", "col", "collist", "bad_total", "bad_same_total", "bad_rows", "bad_onerow", "alias"]
 FLOOR_TAGS = ["recv:" + r for r in c02.RECVS] + ["k:" + k for k in KINDS] + ["side:L", "side:R", "spelling:operator", "spelling:ufunc", "kind:b", "kind:i", "kind:u", "kind:f",
                                            "v:small", "v:extreme", "v:nonfinite", "norows", "allempty", "e-first", "e-last", "e-mid", "e-consec", "e-none", "onerow-col"]
 FLOOR_MONITORS = ["c04:compare", "c04:must-refuse", "c04:operands-unchanged"]
@@ -79,7 +79,19 @@ def run(case):
     else:
         dt2 = np.dtype(case["dtype2"]) if case["dtype2"] else None
         ov = case["other"]
-        if kind == "ra":
+        if kind == "alias":
+            # the second operand is (a selection of) the first one: uf(x, x), uf(x, x[:, ::-1]), uf(x, x[::-1])
+            rows_ = gen.split_rows(flat, lens)
+            if ov == "same":
+                other, ob = ra, flat
+            elif ov == "colrev":
+                other, ob = ra[:, ::-1], (np.concatenate([r[::-1] for r in rows_]) if n else flat)
+            else:
+                if list(lens) != list(lens)[::-1]:
+                    return undefined("row reversal changes the row lengths", tags)
+                other, ob = ra[::-1], (np.concatenate(rows_[::-1]) if n else flat)
+            tags.append("alias:" + ov)
+        elif kind == "ra":
             ob = np.array(ov, dtype=dt2)
             other = c02.build_receiver(case.get("recv2", "fresh"), ob, lens)[0]
         elif kind in ("bad_total", "bad_same_total", "bad_rows", "bad_onerow"):
@@ -217,6 +229,8 @@ def gen_case(rng, lens, dtype, vclass, uf=None, kind=None, side=None, dtype2=Non
         return mk_case(lens, dtype, vals, uf or rng.choice(UNARY), "unary", op=op, vclass=vclass)
     uf = uf or rng.choice(BINARY)
     dtype2 = dtype2 or rng.choice(gen.DT_ALL)
+    if kind == "alias":
+        return mk_case(lens, dtype, vals, uf, kind, side, rng.choice(["same", "colrev", "colrev", "rowrev"]), dtype, op, vclass)
     if kind == "ra":
         other = _vals(rng, dtype2, tot, vclass)
     elif kind == "bad_onerow":
